@@ -1272,3 +1272,18 @@ Example C03_mode_first_chars_e2e_witness :
   | _ => False
   end.
 Proof. vm_compute. repeat split; reflexivity. Qed.
+
+(* findFirstCharDefault ANSWERS at every position of the text: Ok (found, Runtextpos), never a slice / index
+   fault (Crash) nor an exhausted loop (Fuel) - for every Code.Anchors, \G position, Boyer-Moore oracle and
+   FcPrefix; an optimized finder in use needs the fact of its mode (the side conditions that make the published
+   distances usable as indices are part of it).  Feeds C10. *)
+Theorem C03_finder_default_answers_ok :
+  forall (R : Type) (text : list Z) (exec : Z -> option R * Z) (set_in : Z -> Z -> bool) (lower : Z -> Z)
+         (rtl : bool) (anchors ts : Z) (bm : option (Z -> bool)) (bm_scan : option (Z -> Z))
+         (o : option fdopts) (fc : option fdfc),
+    (forall o', o = Some o' -> fd_should_use_optimized o' = true ->
+       fd_minlen_fact R text exec (fo_minreq o') /\ fd_mode_fact R text exec set_in lower o') ->
+    forall p, 0 <= p <= zlen text ->
+    exists r, fd_find_first_char_default text set_in lower rtl anchors ts bm bm_scan o fc p = Ok r.
+Proof. exact cf_default_finder_answers_ok. Qed.
+Print Assumptions C03_finder_default_answers_ok.
